@@ -125,13 +125,9 @@ fn main() {
             let prop = &args[2];
             let tier = &args[3];
             let seed: u64 = args.get(4).and_then(|s| s.parse().ok()).unwrap_or(0);
-            let mut out = util::Out::new();
+            let mut out = util::Out::streaming();
             generate(prop, tier, seed, &mut out);
-            let stdout = std::io::stdout();
-            let mut w = std::io::BufWriter::new(stdout.lock());
-            for l in out.lines {
-                writeln!(w, "{}", l).unwrap();
-            }
+            out.flush();
         }
         Some("ext") => {
             // `harness ext <entry> <x-hex text>`: the E column a `total` request of a typed document
